@@ -5,10 +5,16 @@ import json
 import os
 
 ROOT = os.path.dirname(os.path.dirname(os.path.abspath(__file__)))
+import importlib.util
+_spec = importlib.util.spec_from_file_location("mutants", os.path.join(ROOT, "tools", "mutants.py"))
+_mod = importlib.util.module_from_spec(_spec)
+_spec.loader.exec_module(_mod)
+TARGETS = {m[0]: set(m[1]) for m in _mod.M}
 last = {}
 for ln in open(os.path.join(ROOT, "mutants", "results.jsonl")):
     r = json.loads(ln)
-    last[(r["mutant"], r["property"])] = r
+    if r["property"] in TARGETS.get(r["mutant"], ()):
+        last[(r["mutant"], r["property"])] = r
 rows = []
 by_mut = {}
 for (m, p), r in last.items():
